@@ -125,13 +125,17 @@ static void c15_batch(long idx, long n, uint64_t seed) {
             if (r.chance(1, 3)) { int bl = r.range(1, 300); for (int j = 0; j < bl; j++) bodies[(size_t)k] += (char)r.below(256); }
             if (r.chance(1, 6)) pauseAfter[(size_t)k] = r.range(0, 3);
         }
-        auto issue = [&](int k) {
+        auto build = [&](int k) {
             int b = beh[(size_t)k], param = params[(size_t)k], to = timeoutMs[(size_t)k]; const std::string& bodyIn = bodies[(size_t)k];
-            Outcome* o = out[(size_t)k].get();
             auto rb = bodyIn.empty() ? client.get(base + "/t/" + std::to_string(k) + "/" + std::to_string(b) + "/" + std::to_string(param)) : client.post(base + "/t/" + std::to_string(k) + "/" + std::to_string(b) + "/" + std::to_string(param));
             if (!bodyIn.empty()) rb.body(bodyIn);
             rb.header<Http::Header::Server>("blen-" + std::to_string(bodyIn.size()));
             if (to) rb.timeout(std::chrono::milliseconds(to));
+            return rb;
+        };
+        auto issue = [&](int k, Http::Experimental::RequestBuilder* prebuilt = nullptr) {
+            Outcome* o = out[(size_t)k].get();
+            auto rb = prebuilt ? *prebuilt : build(k);
             try {
                 rb.send().then([o](Http::Response resp) { int t = -1; sscanf(resp.body().c_str(), "tag=%d;", &t); o->tag = t; o->status = (int)resp.code(); o->at = lv::now(); o->fulfilled++; },
                                [o](std::exception_ptr) { o->at = lv::now(); o->rejected++; });
@@ -141,7 +145,12 @@ static void c15_batch(long idx, long n, uint64_t seed) {
         if (issuers == 1) { for (int k = 0; k < nreq; k++) issue(k); }
         else {
             std::atomic<int> ready{0}; std::atomic<bool> go{false}; std::vector<std::thread> it;
-            for (int t = 0; t < issuers; t++) it.emplace_back([&, t] { ready++; while (!go.load(std::memory_order_acquire)) { } for (int k = t; k < nreq; k += issuers) issue(k); });
+            // every issuer has its first request built before the barrier: the very first send() calls of a fresh client (no pool for
+            // the host yet) hit the pool at the same instant
+            for (int t = 0; t < issuers; t++) it.emplace_back([&, t] {
+                std::unique_ptr<Http::Experimental::RequestBuilder> first; if (t < nreq) first.reset(new Http::Experimental::RequestBuilder(build(t)));
+                ready++; while (!go.load(std::memory_order_acquire)) { }
+                for (int k = t; k < nreq; k += issuers) issue(k, k == t ? first.get() : nullptr); });
             while (ready.load() < issuers) lv::msleep(1);
             go.store(true, std::memory_order_release);
             for (auto& t : it) t.join();
